@@ -150,7 +150,7 @@ def main():
             "guard": "--cfg uflow_verif",
             "enable": "harness/.cargo/config.toml sets rustflags = [\"--cfg\", \"uflow_verif\"]; the harness crate depends on /repo by path, so every check rebuilds /repo's working tree with the hooks on",
             "baseline_off_cmd": "cd /repo && (cargo nextest run --workspace --no-fail-fast --tool-config-file pb:/w/lib/nextest.toml --profile pb --test-threads 8 --offline || cargo test --workspace --no-fail-fast --offline)",
-            "source_commits": ["fe3b49a", "b6d35f4", "18cf990"],
+            "source_commits": ["fe3b49a", "b6d35f4", "18cf990", "980c195"],
             "add_only": True,
         },
         "engines": [{"name": "lean4-proof+correspondence", "path": "/verif/check", "serves_properties": sorted(CHECKS),
